@@ -13,6 +13,8 @@ ASSUMPTIONS = [
     "status_message/warning_message print nothing (HUSH_ALL) and are executed natively",
     "work items fix the composition (n+, n-) with the oracle's classes (K,R / D,E); inside one item all 20-letter sequences of that "
     "composition and length are covered by one query per path",
+    "each item first analyses (natively) a fixed prelude of other sequences -- same charge counts at other lengths, and two unrelated ones -- so that "
+    "state shared between objects is in a used state when the symbolic run starts; the prelude is part of every replay file",
 ]
 OUTSIDE = ["sequence lengths above the bound", "rounding of the final <= 2N floating-point additions (bounded by tolerance)"]
 ITEM_TIMEOUT = {"quick": 300, "thorough": 900}
@@ -47,14 +49,18 @@ def run_item(item):
     pos = [is_pos(v) for v in vs]
     neg = [is_neg(v) for v in vs]
     spec, _ = S.delta_z3_fixed_comp(pos, neg, a, b)
-    rng = random.Random(hash((N, a, b)) & 0xffff)
+    rng = random.Random(N * 1009 + a * 31 + b)
+    # history prelude: other objects with the same charge counts but other lengths (and unrelated ones) are analysed natively
+    # first, so that module-level state shared between objects (caches keyed too coarsely, mutated tables) is in a used state
+    prelude = prelude_for(N, a, b)
+    run_prelude(prelude)
 
     def thunk():
         sp = I.call(SequenceParameters, [s], {})
         return I.call(sp.get_delta, [], {})
 
     def cex(m):
-        return dict(seq=seq_of_model(m, vs))
+        return dict(seq=seq_of_model(m, vs), prelude=prelude)
     for pc, out in I.explore(thunk):
         if out[0] == "gap":
             res["inconclusive"].append("ENCODING-GAP: " + out[1])
@@ -90,8 +96,29 @@ def comp_samples(rng, N, a, b, k):
     return out
 
 
+def prelude_for(N, a, b):
+    out = []
+    for extra in (3, 11):
+        out.append("K" * a + "E" * b + "G" * (N - a - b + extra))
+    if N - a - b >= 1 and N > 1:
+        out.append("K" * a + "E" * b + "G" * (N - a - b - 1))
+    out += ["KEKEKEGGSPQRD", "DDDDDKKKKK"]
+    return [q for q in out if q]
+
+
+def run_prelude(seqs):
+    from localcider.sequenceParameters import SequenceParameters
+    for q in seqs:
+        try:
+            sp = SequenceParameters(q)
+            sp.get_delta(); sp.get_kappa(); sp.get_deltaMax()
+        except Exception:
+            pass
+
+
 def replay(cex):
     from localcider.sequenceParameters import SequenceParameters
+    run_prelude(cex.get("prelude", []))
     seq = cex["seq"]
     want = S.delta_exact(seq)
     try:
